@@ -68,6 +68,26 @@ theorem cross_rank_mean {W : Type*} [Fintype W] [Nonempty W] (α : ℝ) (F : Mat
 theorem unscale (g : Matrix r n ℝ) (s : ℝ) (hs : s ≠ 0) : covM ((1 / s) • g) = (1 / s ^ 2) • covM g :=
   unscale' g s hs
 
+/-- **loss scale, per micro-batch**: the output gradients of micro-batch `i` arrive multiplied by the
+    loss scale `s i` in force at that micro-batch; dividing each by its OWN scale before the second
+    moment is taken gives the mean of the unscaled moments, whatever the scales are (they may change
+    between micro-batches of one accumulation window) -/
+theorem unscale_per_microbatch {ι : Type*} [Fintype ι] (g : ι → Matrix r n ℝ) (s : ι → ℝ) (hs : ∀ i, s i ≠ 0) :
+    ∑ i, covM ((1 / s i) • (s i • g i)) = ∑ i, covM (g i) := by
+  refine Finset.sum_congr rfl fun i _ => ?_
+  rw [smul_smul, one_div, inv_mul_cancel₀ (hs i), one_smul]
+
+/-- ... whereas removing ONE scale from the accumulated moment is only correct when the scales agree:
+    with scales `1` and `2` on two micro-batches holding the same `1 × 1` gradient `(1)`, dividing the
+    sum of the scaled moments by `2²` gives `5/4`, not `2` -/
+theorem single_unscale_wrong :
+    (1 / (2 : ℝ) ^ 2) • (covM ((1 : ℝ) • (1 : Matrix (Fin 1) (Fin 1) ℝ)) + covM ((2 : ℝ) • (1 : Matrix (Fin 1) (Fin 1) ℝ)))
+      ≠ covM (1 : Matrix (Fin 1) (Fin 1) ℝ) + covM (1 : Matrix (Fin 1) (Fin 1) ℝ) := by
+  intro h
+  have h0 := congrFun (congrFun h 0) 0
+  simp [covM, Matrix.smul_apply, Matrix.add_apply, Matrix.mul_apply, Matrix.transpose_apply] at h0
+  norm_num at h0
+
 /-! ### the executable formulas (compared exactly with kfac.layers.utils.get_cov etc.) -/
 
 -- `toM m k A i j = KV.Alg.ent A i j` is defined in Lemmas/FactorAlg.lean
